@@ -71,6 +71,24 @@ class Arr:
         self.data = data or uid("data")  # ghost name of the contents
         self.base = base
 
+    def content(self, idx):
+        """value stored at the (symbolic) index: an uninterpreted function of the array's contents
+        name; a converted array (astype) is the conversion of its source's content"""
+        conv = getattr(self, "conv", None)
+        if conv is not None:
+            src, dt = conv
+            t = src.content(idx)
+            if dt in DT and src.dtype in DT:
+                w, sg = DT[dt]
+                sw, ssg = DT[src.dtype]
+                if not sg and not ssg and w >= sw:
+                    return t
+                lo = -(1 << (w - 1)) if sg else 0
+                return (t - lo) % (1 << w) + lo
+            return z3.Int(uid("conv"))
+        f = z3.Function("CONTENT_" + self.data, *([z3.IntSort()] * (len(self.shape) + 1)))
+        return f(*idx)
+
     def itemsize(self):
         return {"uint8": 1, "uint16": 2, "uint32": 4, "uint64": 8, "float64": 8, "float32": 4}[self.dtype]
 
@@ -1550,6 +1568,23 @@ class PyExec:
             a.nbytes_total = getattr(arr, "nbytes_total", None)
             st.effects.append(("reshape", arr, a))
             return [("val", a, st)]
+        if name == "arr.astype":
+            src = selfv
+            dt = self.dtype_name(args[0])
+            a2 = Arr(dt, src.shape, data=uid("astype_" + src.data))
+            a2.conv = (src, dt)
+            return [("val", a2, st)]
+        if name in ("arr.max", "arr.min"):
+            src = selfv
+            m = z3.Int(uid(name.split(".")[1] + "_" + src.data))
+            idx = [z3.Int(uid("qi")) for _ in src.shape]
+            rng = z3.And(*[z3.And(i >= 0, i < n) for i, n in zip(idx, src.shape)])
+            c = src.content(idx)
+            st.pc.append(z3.ForAll(idx, z3.Implies(rng, (c <= m) if name == "arr.max" else (c >= m)), patterns=[c]))
+            if src.dtype in DT:
+                w, sg = DT[src.dtype]
+                st.pc += [m >= 0, m < (1 << w)]
+            return [("val", Sym(m, src.dtype if src.dtype in DT else "int"), st)]
         if name == "arr.tobytes":
             t = z3.Int("rowbytes_" + selfv.data) if isinstance(selfv, Arr) and selfv.data.startswith("row_") else z3.Int(uid("bytes"))
             v = Sym(t, "bytes")
